@@ -102,6 +102,14 @@ func genC10(rt *rapid.T) C10Case {
 			c.OtherAt = append(c.OtherAt, rapid.IntRange(0, len(c.W.Ops)).Draw(rt, "otherAt"))
 		}
 	}
+	// the confirming read before an adoption is a call like any other: a sixth of the otherwise unfaulted reconciles
+	// have it fail transiently (the adoptions of that pass must then not happen)
+	for i := range c.W.Ops {
+		if op := &c.W.Ops[i]; op.K == OpReconcile && op.FaultAt == 0 && op.InterAt == 0 && rapid.IntRange(0, 5).Draw(rt, "getFault") == 0 {
+			op.FaultAt = -5
+			op.Fault = rapid.SampledFrom([]int{FServerError, FTimeoutLost}).Draw(rt, "getFaultKind")
+		}
+	}
 	if rapid.IntRange(0, 3).Draw(rt, "twin") == 0 {
 		c.Twin = true
 		c.TwinReplicas = rapid.IntRange(0, 4).Draw(rt, "twinReplicas")
